@@ -117,6 +117,8 @@ def c20_entropy(tier):
                 kind = "constant jax key"
             elif fn in ("torch.manual_seed",):
                 kind = "torch seed"
+            elif fn in ("torch.seed", "torch.random.seed", "np.random.seed", "numpy.random.seed", "random.seed") and not node.args:
+                kind = "process-dependent value"          # torch.seed() *re-seeds* the global generator from OS entropy (it is not a getter)
             elif fn in ("torch.rand", "torch.randn", "torch.randperm", "torch.randn_like", "torch.rand_like"):
                 kind = "global torch generator"
             elif fn == "hash" and node.args and not (isinstance(node.args[0], ast.Constant) and isinstance(node.args[0].value, (int, float))):
